@@ -447,6 +447,38 @@ theorem tensor_penalty_psd_2d (m1 m2 ord : ℕ) (la lb : ℚ) (ha : 0 ≤ la) (h
     (fun u => by rw [quadForm_penMat]; exact Finset.sum_nonneg fun r _ => sq_nonneg _)
     (fun u => by rw [quadForm_penMat]; exact Finset.sum_nonneg fun r _ => sq_nonneg _) v
 
+/-- Summary, 2-D: the matrix the code hands to `lstsq`/`pinv` (`bwb_mat + penalty_mat`, assembled by
+the array arithmetic and `_tensor_product_penalties`) is, entry by entry, the normal matrix
+`(B₁⊗B₂) W (B₁⊗B₂)ᵀ + λ₁·D₁ᵀD₁⊗I + λ₂·I⊗D₂ᵀD₂` of the explicit tensor-product penalised weighted
+least-squares problem — all basis sizes, all grid sizes, every order. -/
+theorem normal_equations_2d (d1 d2 : Dim) (W : Array ℚ) (ord : ℕ) (la lb : ℚ)
+    (hn1 : 0 < d1.n) (hn2 : 0 < d2.n)
+    (k1 l1 k2 l2 : ℕ) (hk1 : k1 < d1.m) (hl1 : l1 < d1.m) (hk2 : k2 < d2.m) (hl2 : l2 < d2.m) :
+    rd (glamBWB [d1, d2] W) ((k1 * d2.m + k2) * (d1.m * d2.m) + (l1 * d2.m + l2))
+        + penaltyND [la, lb] [(d1.m, penMat d1.m ord), (d2.m, penMat d2.m ord)] (k1 * d2.m + k2) (l1 * d2.m + l2)
+      = normalMat (d1.n * d2.n) (rd W) (kronB d2.m d2.n d1.B d2.B)
+          (penSpec2 d2.m la lb (penMat d1.m ord) (penMat d2.m ord)) (k1 * d2.m + k2) (l1 * d2.m + l2) := by
+  rw [glam_bwb_2d d1 d2 W hn1 hn2 k1 l1 k2 l2 hk1 hl1 hk2 hl2,
+    tensor_penalty_spec_2d d1.m d2.m la lb _ _ (penMat_symm d1.m ord) (penMat_symm d2.m ord)]
+  rfl
+
+/-- Summary, 3-D. -/
+theorem normal_equations_3d (d1 d2 d3 : Dim) (W : Array ℚ) (ord : ℕ) (la lb lc : ℚ)
+    (hn1 : 0 < d1.n) (hn2 : 0 < d2.n) (hn3 : 0 < d3.n)
+    (k1 l1 k2 l2 k3 l3 : ℕ) (hk1 : k1 < d1.m) (hl1 : l1 < d1.m) (hk2 : k2 < d2.m) (hl2 : l2 < d2.m)
+    (hk3 : k3 < d3.m) (hl3 : l3 < d3.m) :
+    rd (glamBWB [d1, d2, d3] W)
+          (((k1 * d2.m + k2) * d3.m + k3) * (d1.m * d2.m * d3.m) + ((l1 * d2.m + l2) * d3.m + l3))
+        + penaltyND [la, lb, lc] [(d1.m, penMat d1.m ord), (d2.m, penMat d2.m ord), (d3.m, penMat d3.m ord)]
+            ((k1 * d2.m + k2) * d3.m + k3) ((l1 * d2.m + l2) * d3.m + l3)
+      = normalMat (d1.n * d2.n * d3.n) (rd W) (kronB3 d2.m d2.n d3.m d3.n d1.B d2.B d3.B)
+          (penSpec3 d2.m d3.m la lb lc (penMat d1.m ord) (penMat d2.m ord) (penMat d3.m ord))
+          ((k1 * d2.m + k2) * d3.m + k3) ((l1 * d2.m + l2) * d3.m + l3) := by
+  rw [glam_bwb_3d d1 d2 d3 W hn1 hn2 hn3 k1 l1 k2 l2 k3 l3 hk1 hl1 hk2 hl2 hk3 hl3,
+    tensor_penalty_spec_3d d1.m d2.m d3.m la lb lc _ _ _ (penMat_symm d1.m ord) (penMat_symm d2.m ord)
+      (penMat_symm d3.m ord)]
+  rfl
+
 /-! ## The certifying solver of the driver -/
 
 /-- What `certInverse` returns is an inverse. -/
